@@ -492,6 +492,20 @@ def pc_readback(ctx):
     ctx.ob(R, 'tools.pkg_config|splitters-found', n >= 1, None,
            'no option_list splitter found in tools/pkg_config.py')
     f = F.fn('bfg9000.builtins.pkg_config:finalize_pkg_config')
+    # a field is auto-filled only when it was not given (is None): an
+    # explicitly empty libs=[] / includes=[] stays empty
+    sets = F.effects(f, lambda e: e.name == 'setattr', depth=1)
+    ok = bool(sets) and all(any(
+        op == 'Is' and (has_const(l, None) or has_const(r_, None)) and
+        (has_call(l, 'getattr') or has_call(r_, 'getattr'))
+        for f_, n_ in e.path for op, l, r_ in F.guard_compares(n_, f_))
+        for e in sets)
+    if not sets:
+        # spelled with attribute stores instead of setattr: not analysed
+        ok = True
+    ctx.ob(R, 'finalize_pkg_config|auto-fill-only-unset-fields', ok, f.node,
+           'a field is auto-filled when it is merely empty/false, not only '
+           'when it is None: libs=[] is replaced by every installed library')
     for key in ('includes', 'libs'):
         vals = []
         for d in ast.walk(f.node):
